@@ -282,43 +282,46 @@ Proof.
       * apply (distinct_app _ _ n1 n2 n3); assumption.
 Qed.
 
-Lemma resolve_catch_params' e fs cur n hd :
-  catch_params_only hd = true -> resolve e fs cur false n hd = (map (TBind cur false) (headdecls hd), n).
+Lemma P_catch hd b k : lexdecls hd = [] -> vardecls hd = [] -> headdecls b = [] -> P hd -> P b -> P k -> P (Catch hd b k).
 Proof.
-  induction hd; cbn; intros H; try discriminate; [reflexivity|].
-  destruct d; try discriminate. rewrite (IHhd H). reflexivity.
-Qed.
-
-Lemma P_catch hd b k : catch_params_only hd = true -> headdecls b = [] -> P b -> P k -> P (Catch hd b k).
-Proof.
-  intros Hhd Hb0 IHb IHk e fs cur ca n N He Hl Hv. cbn [lexdecls headdecls vardecls] in Hl, Hv. cbn [resolve].
-  rewrite (resolve_catch_params' _ _ _ _ _ Hhd).
-  set (names := headdecls hd ++ lexdecls b).
-  pose proof (resolve_counter_mono b ((n, false, names) :: e) fs n false (S n)) as Hm1.
-  destruct (IHb ((n, false, names) :: e) fs n false (S n) (addN N n false names)) as (bs1 & B1 & B2 & B3).
+  intros Ehl Ehv Hb0 IHh IHb IHk e fs cur ca n N He Hl Hv. cbn [lexdecls headdecls vardecls] in Hl, Hv. cbn [resolve].
+  set (names := headdecls hd ++ lexdecls b). set (N1 := addN N n false names).
+  pose proof (resolve_counter_mono hd ((n, false, headdecls hd) :: e) fs n false (S n)) as Hm0.
+  destruct (IHh ((n, false, headdecls hd) :: e) fs n false (S n) N1) as (bs0 & A1 & A2 & A3).
+  { intros t b0 L x [E|Hin] Hx.
+    - inversion E; subst. right. repeat split; try reflexivity. unfold names. apply in_app_iff. left. exact Hx.
+    - left. apply (He t b0 L x Hin Hx). }
+  { rewrite Ehl. cbn [app]. intros y Hy. right. repeat split; try reflexivity. unfold names. apply in_app_iff. left. exact Hy. }
+  { rewrite Ehv. intros y []. }
+  destruct (resolve ((n, false, headdecls hd) :: e) fs n false (S n) hd) as [rh n0]. cbn [fst snd] in *.
+  pose proof (resolve_counter_mono b ((n, false, names) :: e) fs n false n0) as Hm1.
+  destruct (IHb ((n, false, names) :: e) fs n false n0 N1) as (bs1 & B1 & B2 & B3).
   { apply envN_push. exact He. }
   { rewrite Hb0, app_nil_r. intros y Hy. right. repeat split; try reflexivity. unfold names. apply in_app_iff. right. exact Hy. }
   { intros y Hy. left. apply Hv. apply in_app_iff. right. apply in_app_iff. left. exact Hy. }
-  destruct (resolve ((n, false, names) :: e) fs n false (S n) b) as [rb n1]. cbn [fst snd] in *.
+  fold names. destruct (resolve ((n, false, names) :: e) fs n false n0 b) as [rb n1]. cbn [fst snd] in *.
   pose proof (resolve_counter_mono k e fs cur ca n1) as Hm2.
   destruct (IHk e fs cur ca n1 N He Hl) as (bs2 & K1 & K2 & K3).
   { intros y Hy. apply Hv. apply in_app_iff. right. apply in_app_iff. right. exact Hy. }
   destruct (resolve e fs cur ca n1 k) as [rk n2]. cbn [fst snd] in *.
-  exists (names_of n false names ++ bs1 ++ bs2). split; [|split].
+  assert (HN1 : forall s a x, N1 s a x -> N s a x \/ In (s, a, x) (names_of n false names ++ bs0 ++ bs1 ++ bs2)).
+  { intros s a x [H|(-> & -> & H)]; [left; exact H|right; apply in_app_iff; left; apply in_names_of; repeat split; try reflexivity; exact H]. }
+  exists (names_of n false names ++ bs0 ++ bs1 ++ bs2). split; [|split].
   - apply Forall_app. split.
-    { apply Forall_forall. intros t Ht. apply in_map_iff in Ht. destruct Ht as (x & <- & Hx). cbn [ok_t]. right.
-      apply in_app_iff. left. apply in_names_of. repeat split; try reflexivity. unfold names. apply in_app_iff. left. exact Hx. }
+    { eapply Forall_ok_mono; [exact HN1| |exact A1]. intros t Ht. apply in_app_iff. right. apply in_app_iff. left. exact Ht. }
     apply Forall_app. split.
-    + eapply Forall_ok_mono; [| |exact B1].
-      * intros s a x [H|(-> & -> & H)]; [left; exact H|right; apply in_app_iff; left; apply in_names_of; repeat split; try reflexivity; exact H].
-      * intros t Ht. apply in_app_iff. right. apply in_app_iff. left. exact Ht.
-    + eapply Forall_ok_mono; [| |exact K1]; [intros s a x H; left; exact H|].
-      intros t Ht. apply in_app_iff. right. apply in_app_iff. right. exact Ht.
+    { eapply Forall_ok_mono; [exact HN1| |exact B1]. intros t Ht. apply in_app_iff. right. apply in_app_iff. right. apply in_app_iff. left. exact Ht. }
+    eapply Forall_ok_mono; [| |exact K1]; [intros s a x H; left; exact H|].
+    intros t Ht. apply in_app_iff. right. apply in_app_iff. right. apply in_app_iff. right. exact Ht.
   - apply ranged_app; [eapply ranged_weaken; [apply ranged_names|lia|lia]|].
+    apply ranged_app; [eapply ranged_weaken; [exact A2|lia|lia]|].
     apply ranged_app; [eapply ranged_weaken; [exact B2|lia|lia]|eapply ranged_weaken; [exact K2|lia|lia]].
   - apply (distinct_app _ _ n (S n) n2); [apply ranged_names| |apply distinct_names|].
-    + apply ranged_app; [eapply ranged_weaken; [exact B2|lia|lia]|eapply ranged_weaken; [exact K2|lia|lia]].
-    + apply (distinct_app _ _ (S n) n1 n2); assumption.
+    + apply ranged_app; [eapply ranged_weaken; [exact A2|lia|lia]|].
+      apply ranged_app; [eapply ranged_weaken; [exact B2|lia|lia]|eapply ranged_weaken; [exact K2|lia|lia]].
+    + apply (distinct_app _ _ (S n) n0 n2); [exact A2| |exact A3|].
+      * apply ranged_app; [eapply ranged_weaken; [exact B2|lia|lia]|eapply ranged_weaken; [exact K2|lia|lia]].
+      * apply (distinct_app _ _ n0 n1 n2); assumption.
 Qed.
 
 Lemma P_class ms k : lexdecls ms = [] -> headdecls ms = [] -> vardecls ms = [] -> P ms -> P k -> P (Class None ms k).
@@ -339,46 +342,46 @@ Proof.
   - apply (distinct_app _ _ (S n) n1 n2); assumption.
 Qed.
 
-Theorem core_x_P p : (core_x p = true -> P p) /\ (pcore_x p = true -> P p).
+Theorem core_x_P p : (core_x p = true -> P p) /\ (forall c, hcore_x c p = true -> P p).
 Proof.
-  induction p; (split; [intros Hc; cbn [core_x] in Hc|intros Hc; cbn [pcore_x] in Hc]); try discriminate.
+  induction p; (split; [intros Hc; cbn [core_x] in Hc|intros c Hc; cbn [hcore_x] in Hc]); try discriminate.
   - exact P_done.
   - exact P_done.
   - apply P_ref. apply (proj1 IHp). exact Hc.
-  - andbs. apply P_ref. apply (proj2 IHp). assumption.
+  - andbs. apply P_ref. apply (proj2 IHp c). assumption.
   - andbs. apply P_decl. apply (proj1 IHp). assumption.
-  - destruct d; try discriminate. apply P_decl. apply (proj2 IHp). exact Hc.
+  - destruct d; try discriminate; destruct c; try discriminate; apply P_decl; eapply (proj2 IHp); exact Hc.
   - andbs. apply P_block; [apply core_x_headdecls; assumption|apply (proj1 IHp1); assumption|apply (proj1 IHp2); assumption].
   - (* Func, statement list *)
     apply andb_true_iff in Hc. destruct Hc as [Hc H5]. apply andb_true_iff in Hc. destruct Hc as [Hc H4].
     apply andb_true_iff in Hc. destruct Hc as [H1 H3].
     destruct (pcore_x_lexvar p1 H1) as [E1 E2].
-    apply (P_func nm p1 p2 p3 E1 E2 (core_x_headdecls p2 H3)); [|apply (proj2 IHp1); exact H1|apply (proj1 IHp2); exact H3|apply (proj1 IHp3); exact H4].
+    apply (P_func nm p1 p2 p3 E1 E2 (core_x_headdecls p2 H3)); [|apply (proj2 IHp1 false); exact H1|apply (proj1 IHp2); exact H3|apply (proj1 IHp3); exact H4].
     intros g ->. apply negb_true_iff in H5. apply mem_not_in. exact H5.
   - (* Func, parameter list *)
     apply andb_true_iff in Hc. destruct Hc as [Hc H6]. apply andb_true_iff in Hc. destruct Hc as [Hc H5].
     apply andb_true_iff in Hc. destruct Hc as [Hc H4]. apply andb_true_iff in Hc. destruct Hc as [H1 H3].
     destruct (pcore_x_lexvar p1 H1) as [E1 E2].
-    apply (P_func nm p1 p2 p3 E1 E2 (core_x_headdecls p2 H3)); [|apply (proj2 IHp1); exact H1|apply (proj1 IHp2); exact H3|apply (proj2 IHp3); exact H5].
+    apply (P_func nm p1 p2 p3 E1 E2 (core_x_headdecls p2 H3)); [|apply (proj2 IHp1 false); exact H1|apply (proj1 IHp2); exact H3|apply (proj2 IHp3 c); exact H5].
     intros g ->. apply andb_true_iff in H6. destruct H6 as [H6 _]. apply negb_true_iff in H6. apply mem_not_in. exact H6.
   - (* Arrow, statement list *)
     apply andb_true_iff in Hc. destruct Hc as [Hc H4]. apply andb_true_iff in Hc. destruct Hc as [H1 H3].
     destruct (pcore_x_lexvar p1 H1) as [E1 E2].
-    apply (P_func None p1 p2 p3 E1 E2 (core_x_headdecls p2 H3)); [discriminate|apply (proj2 IHp1); exact H1|apply (proj1 IHp2); exact H3|apply (proj1 IHp3); exact H4|reflexivity].
+    apply (P_func None p1 p2 p3 E1 E2 (core_x_headdecls p2 H3)); [discriminate|apply (proj2 IHp1 false); exact H1|apply (proj1 IHp2); exact H3|apply (proj1 IHp3); exact H4|reflexivity].
   - (* Arrow, parameter list *)
     apply andb_true_iff in Hc. destruct Hc as [Hc H5]. apply andb_true_iff in Hc. destruct Hc as [Hc H4].
     apply andb_true_iff in Hc. destruct Hc as [H1 H3].
     destruct (pcore_x_lexvar p1 H1) as [E1 E2].
-    apply (P_func None p1 p2 p3 E1 E2 (core_x_headdecls p2 H3)); [discriminate|apply (proj2 IHp1); exact H1|apply (proj1 IHp2); exact H3|apply (proj2 IHp3); exact H5|reflexivity].
+    apply (P_func None p1 p2 p3 E1 E2 (core_x_headdecls p2 H3)); [discriminate|apply (proj2 IHp1 false); exact H1|apply (proj1 IHp2); exact H3|apply (proj2 IHp3 c); exact H5|reflexivity].
   - (* For *)
     apply andb_true_iff in Hc. destruct Hc as [Hc H5]. apply andb_true_iff in Hc. destruct Hc as [Hc H4].
     apply andb_true_iff in Hc. destruct Hc as [Hc H3]. apply andb_true_iff in Hc. destruct Hc as [H1 H2].
     apply P_for; [apply core_x_headdecls; exact H1|apply core_x_headdecls; exact H2| |apply (proj1 IHp1); exact H1|apply (proj1 IHp2); exact H2|apply (proj1 IHp3); exact H3].
-    intros x Hx. apply (disjointb_spec _ _ H4). apply lexdecls_allnames. exact Hx.
+    intros x Hx. apply (disjointb_spec _ _ H4). exact Hx.
   - (* Catch *)
     apply andb_true_iff in Hc. destruct Hc as [Hc H4]. apply andb_true_iff in Hc. destruct Hc as [Hc H3].
-    apply andb_true_iff in Hc. destruct Hc as [H1 H2].
-    apply P_catch; [exact H1|apply core_x_headdecls; exact H3|apply (proj1 IHp2); exact H3|apply (proj1 IHp3); exact H4].
+    apply andb_true_iff in Hc. destruct Hc as [H1 H2]. destruct (hcore_x_lexvar true p1 H1) as [E1 E2].
+    apply P_catch; [exact E1|exact E2|apply core_x_headdecls; exact H3|apply (proj2 IHp1 true); exact H1|apply (proj1 IHp2); exact H3|apply (proj1 IHp3); exact H4].
   - (* Class, statement list *)
     destruct nm; [discriminate|]. apply andb_true_iff in Hc. destruct Hc as [Hc H4]. apply andb_true_iff in Hc. destruct Hc as [Hc H3].
     apply andb_true_iff in Hc. destruct Hc as [H1 H2].
@@ -386,7 +389,7 @@ Proof.
   - (* Class, parameter list *)
     destruct nm; [discriminate|]. apply andb_true_iff in Hc. destruct Hc as [Hc H5]. apply andb_true_iff in Hc. destruct Hc as [Hc H4].
     apply andb_true_iff in Hc. destruct Hc as [Hc H3]. apply andb_true_iff in Hc. destruct Hc as [H1 H2].
-    apply P_class; [apply is_nil_eq; exact H2|apply core_x_headdecls; exact H1|apply is_nil_eq; exact H3|apply (proj1 IHp1); exact H1|apply (proj2 IHp2); exact H5].
+    apply P_class; [apply is_nil_eq; exact H2|apply core_x_headdecls; exact H1|apply is_nil_eq; exact H3|apply (proj1 IHp1); exact H1|apply (proj2 IHp2 c); exact H5].
 Qed.
 
 (* the side conditions of the fragment imply the hypothesis of Main.resolution_correct_core *)
